@@ -9,15 +9,28 @@ ID = 'C20'
 LEAN_MODULES = ['HotXL.Props.C20']
 FUNCTIONS = ['hotxlfp.tinyemitter:Emitter.on', 'hotxlfp.tinyemitter:Emitter.once',
              'hotxlfp.tinyemitter:Emitter.emit', 'hotxlfp.tinyemitter:Emitter.off']
-RULE = ('seeded histories of on/once/off(name)/off(name,cb)/emit over 2-3 names x 3-4 callbacks x 2 contexts, callbacks '
-        'whose bodies subscribe/unsubscribe/emit during delivery (nesting depth <= 3); thorough adds every history of '
-        'length <= 4 over 2 names x 2 callbacks for three body assignments; run on a bare Emitter and on a '
-        'hotxlfp.Parser. Final subscriptions are observed through two probe emits per name. Non-trivial = at least one '
-        'callback was called; distinct = distinct (bodies, ops).')
+RULE = ('1500*scale (thorough 20000) seeded histories of 1..30 (thorough 1..60) operations on/once/off(name)/off(name,cb)/emit '
+        'over 2-3 names x 3-4 callbacks x 2 contexts, callbacks whose bodies (0..3 operations) subscribe/unsubscribe/emit during '
+        'delivery (nesting depth 0..3), run on a bare Emitter (2/3) or a hotxlfp.Parser (1/3); callback flavour: plain functions '
+        '(1/2), bound methods of host objects fetched anew for every on/once/off (1/4), functools.wraps-decorated versions of '
+        'the callback before them (1/4); with probability 0.4 the context is a mapping bound while empty and filled afterwards '
+        '(latectx). 4 fixed histories (re-entrant once, off by callback of a once-listener, off of one of two callbacks, '
+        'subscribe/unsubscribe during delivery) in the four variants plain / bound / wrapped / latectx. Thorough adds every '
+        'history of length <= 4 with an emit over 16 operations (2 names x 2 callbacks) for three body assignments (length 1: '
+        'empty bodies only), depth 2, bare Emitter. Observed: the log of calls (callback, argument, context, name, depth) and, for '
+        'the final subscriptions, two probe emits per name with the bodies switched off. Every history is compared with the '
+        'model and the reference emitter unless it makes more than 3000 callback calls (then it is not judged). Non-trivial = '
+        'at least one callback was called before the probes; distinct = distinct cases.')
 TRUSTED = ['callbacks are modelled as scripts of emitter operations; callbacks that raise are not modelled',
            'equality (==) of callbacks is modelled by callback ids: plain functions, and bound methods of host objects '
-           'fetched anew for every on/once/off (equal, not identical), and functools.wraps-decorated versions of other callbacks']
-ASSUMPTIONS = ['a once-listener reached first by a nested emit receives that emit (it is called exactly once)']
+           'fetched anew for every on/once/off (equal, not identical), and functools.wraps-decorated versions of other callbacks; '
+           'flavour, late filling of the context and Emitter/Parser are not part of the model request: the model answer is the same']
+ASSUMPTIONS = ['a once-listener reached first by a nested emit receives that emit (it is called exactly once)',
+               'an emit delivers to the subscriptions present when it starts, in subscription order (subscribing / unsubscribing during '
+               'delivery takes effect from the next emit; a once-listener that already fired is skipped); off(name, cb) removes every '
+               'subscription of cb under that name, once or not',
+               'the context (keyword arguments of the call) is the mapping given at subscription itself, not a copy taken then: what the '
+               'host puts into it afterwards is delivered']
 EXHAUSTIVE = {'quick': False, 'thorough': False}
 
 CALL_BUDGET = 3000
